@@ -468,4 +468,253 @@ example : obsHP (XHostport.run { p0 := "[::1]:80".toUTF8.toList }) = .ok ("[::1]
 example : obsHP (XHostport.run { p0 := "backend".toUTF8.toList }) = .ok ("backend".toList, []) := by decide +kernel
 
 
+/-! ### `atoi` -/
+
+namespace AT
+open XAtoi
+
+/-- the scratch array `d` of the state holds, behind index `p`, the text `acc` written so far -/
+def Rel (s : St) (acc : List Char) : Prop :=
+  s.l1.length = 128 ∧ acc.length ≤ 128 ∧ s.l3 = 127 - (acc.length : Int) ∧ chars (s.l1.drop (128 - acc.length)) = acc ∧ s.l2 = 128
+
+/-- what the loops leave alone -/
+def Frame (s s' : St) : Prop := s'.p0 = s.p0 ∧ s'.l0 = s.l0 ∧ s'.p2 = s.p2
+
+/-- a loop of `atoi` against its model: both fall through with related buffers, or both panic -/
+def LoopOut (s : St) (fl : Flow Rho St) (m : Outcome (List Char)) : Prop :=
+  match fl, m with
+  | .next s', .ok acc' => Rel s' acc' ∧ Frame s s'
+  | .panic _, .panic _ => True
+  | _, _ => False
+
+theorem LoopOut.frame {s s1 : St} {fl : Flow Rho St} {m : Outcome (List Char)} (h : LoopOut s1 fl m) (hf : Frame s s1) :
+    LoopOut s fl m := by
+  unfold LoopOut at h ⊢
+  cases fl <;> cases m <;> simp_all [Frame]
+
+/-- one store `d[p] = v; p--` in a related state -/
+theorem push_step (s : St) (acc : List Char) (v : UInt8) (h : Rel s acc) (hlt : acc.length < 128) :
+    upd s.l1 s.l3 v = .ok (s.l1.set (127 - acc.length) v) ∧ wrapI 64 (s.l3 - 1) = 127 - ((acc.length + 1 : Nat) : Int) ∧
+    chars ((s.l1.set (127 - acc.length) v).drop (128 - (acc.length + 1))) = Char.ofNat v.toNat :: acc := by
+  obtain ⟨h1, h2, h3, h4, h5⟩ := h
+  have hk : 127 - acc.length < s.l1.length := by omega
+  refine ⟨?_, ?_, ?_⟩
+  · have : s.l3 = ((127 - acc.length : Nat) : Int) := by omega
+    rw [this, upd_ok _ _ _ hk]
+  · rw [wrap64_id] <;> omega
+  · have e : 128 - (acc.length + 1) = 127 - acc.length := by omega
+    rw [e, drop_set _ _ _ hk]
+    have e2 : 127 - acc.length + 1 = 128 - acc.length := by omega
+    rw [e2]
+    show Char.ofNat v.toNat :: chars _ = _
+    rw [h4]
+
+theorem push_full (s : St) (acc : List Char) (v : UInt8) (h : Rel s acc) (hfull : acc.length = 128) :
+    ∃ w, upd s.l1 s.l3 v = .panic w := by
+  obtain ⟨h1, h2, h3, h4, h5⟩ := h
+  exact upd_neg _ _ _ (by omega)
+
+/-- the digit loop (`for i >= 0 { d[p] = '0' + i%10; i /= 10; p--; if i == 0 { break } }`) -/
+theorem loop0_spec (fuel : Nat) (s : St) (acc : List Char) (h : Rel s acc) (hi : 0 ≤ s.p1) :
+    LoopOut s (loopN loop0Cond loop0Body fuel s) (digitsLoop 128 fuel s.p1.toNat acc) := by
+  induction fuel generalizing s acc with
+  | zero => simp [loopN, digitsLoop, LoopOut]
+  | succ fuel ih =>
+    unfold loopN digitsLoop
+    have hc : loop0Cond s = .ok true := by simp [loop0Cond, hi]
+    simp only [hc]
+    by_cases hfull : acc.length = 128
+    · obtain ⟨w, hw⟩ := push_full s acc ((48 : UInt8) + toU8 (Int.tmod s.p1 10)) h hfull
+      simp [loop0Body, seq, assign, hw, pushFront, hfull, LoopOut]
+    · have hlt : acc.length < 128 := by have := h.2.1; omega
+      obtain ⟨hu, hw, hd⟩ := push_step s acc ((48 : UInt8) + toU8 (Int.tmod s.p1 10)) h hlt
+      have hq : Int.tdiv s.p1 10 = ((s.p1.toNat / 10 : Nat) : Int) := by
+        rw [Int.tdiv_eq_ediv_of_nonneg hi]; omega
+      rw [digit_char s.p1 hi] at hd
+      generalize hb : loop0Body s = fl
+      simp only [loop0Body, seq, assign, hu, hq, ifS] at hb
+      simp only [pushFront, hlt, if_true]
+      have hrel : ∀ q : Int, Rel ({ s with p1 := q, l1 := List.set s.l1 (127 - acc.length) ((48 : UInt8) + toU8 (Int.tmod s.p1 10)), l3 := wrapI 64 (s.l3 - 1) } : St) (digitByte s.p1.toNat :: acc) := by
+        intro q
+        obtain ⟨h1, h2, h3, h4, h5⟩ := h
+        refine ⟨by simp [h1], by simp; omega, ?_, hd, h5⟩
+        simp only [hw, List.length_cons]
+      by_cases hz : s.p1.toNat / 10 = 0
+      · have hz' : (((s.p1.toNat / 10 : Nat) : Int) == 0) = true := by simp [hz]
+        simp only [hz', brk] at hb
+        subst hb
+        simp only [hz, if_true, LoopOut]
+        exact ⟨hrel _, rfl, rfl, rfl⟩
+      · have hz' : (((s.p1.toNat / 10 : Nat) : Int) == 0) = false := by simp; omega
+        simp only [hz', skip] at hb
+        subst hb
+        simp only [hz, if_false]
+        have := ih _ (digitByte s.p1.toNat :: acc) (hrel ((s.p1.toNat / 10 : Nat) : Int)) (Int.natCast_nonneg _)
+        have e : ((s.p1.toNat / 10 : Nat) : Int).toNat = s.p1.toNat / 10 := by omega
+        simp only [e] at this
+        exact this.frame ⟨rfl, rfl, rfl⟩
+
+/-- the padding loop (`for n-p-1 < pad { d[p] = '0'; p-- }`): the fuel the translator was given (130) is enough —
+the loop stores at most 128 zeros before the bounds check of `d[-1]` stops it -/
+theorem loop1_spec (fuel : Nat) (s : St) (acc : List Char) (pad : Nat) (h : Rel s acc) (hp : s.p2 = pad)
+    (hf : 130 - acc.length ≤ fuel) :
+    LoopOut s (loopN loop1Cond loop1Body fuel s) (padLoop 128 (pad - acc.length) acc) := by
+  induction fuel generalizing s acc with
+  | zero => have := h.2.1; omega
+  | succ fuel ih =>
+    unfold loopN
+    have hcond : loop1Cond s = .ok (decide (acc.length < pad)) := by
+      obtain ⟨h1, h2, h3, h4, h5⟩ := h
+      have e1 : wrapI 64 (s.l2 - s.l3) = (acc.length : Int) + 1 := by rw [wrap64_id] <;> omega
+      have e2 : wrapI 64 ((acc.length : Int) + 1 - 1) = acc.length := by rw [wrap64_id] <;> omega
+      simp only [loop1Cond, e1, e2, hp, ltI_eq]
+      congr 1
+      simp
+    simp only [hcond]
+    by_cases hlp : acc.length < pad
+    · have hk : pad - acc.length = (pad - (acc.length + 1)) + 1 := by omega
+      rw [hk]
+      simp only [hlp, decide_true, padLoop]
+      by_cases hfull : acc.length = 128
+      · obtain ⟨w, hw⟩ := push_full s acc 48 h hfull
+        simp [loop1Body, seq, assign, hw, pushFront, hfull, LoopOut]
+      · have hlt : acc.length < 128 := by have := h.2.1; omega
+        obtain ⟨hu, hw, hd⟩ := push_step s acc 48 h hlt
+        have h48 : Char.ofNat (48 : UInt8).toNat = '0' := rfl
+        rw [h48] at hd
+        simp only [loop1Body, seq, assign, hu, pushFront, hlt, if_true]
+        have hrel : Rel ({ s with l1 := List.set s.l1 (127 - acc.length) 48, l3 := wrapI 64 (s.l3 - 1) } : St) ('0' :: acc) := by
+          obtain ⟨h1, h2, h3, h4, h5⟩ := h
+          refine ⟨by simp [h1], by simp; omega, ?_, hd, h5⟩
+          simp only [hw, List.length_cons]
+        have := ih _ ('0' :: acc) hrel hp (by simp only [List.length_cons]; omega)
+        exact this.frame ⟨rfl, rfl, rfl⟩
+    · have hk : pad - acc.length = 0 := by omega
+      rw [hk]
+      simp only [hlp, decide_false, padLoop, LoopOut]
+      exact ⟨h, rfl, rfl, rfl⟩
+
+/-- `d[p+1:]` in a related state is the text written so far -/
+theorem tail_slice (s : St) (acc : List Char) (h : Rel s acc) :
+    sliceFrom s.l1 (wrapI 64 (s.l3 + 1)) = .ok (s.l1.drop (128 - acc.length)) := by
+  obtain ⟨h1, h2, h3, h4, h5⟩ := h
+  have e : wrapI 64 (s.l3 + 1) = ((128 - acc.length : Nat) : Int) := by rw [wrap64_id] <;> omega
+  rw [e]
+  simp [sliceFrom]; omega
+
+end AT
+
+/-- what `atoi` appended: the buffer afterwards, as text -/
+def obsA : V (Unit × XAtoi.St) → Outcome (List Char)
+  | .ok (_, s) => .ok (chars s.p0)
+  | .panic _ => .panic ""
+
+theorem rel_init (buf : Bytes) (a : Int) (pad : Int) (neg : Bool) :
+    AT.Rel { p0 := buf, p1 := a, p2 := pad, l0 := neg, l1 := List.replicate 128 0, l2 := 128, l3 := 127 } [] := by
+  refine ⟨by simp, by simp, by simp, by simp [chars], rfl⟩
+
+/-- **The translated `atoi` equals the model's for every integer and every pad ≥ 0**: same 128-byte scratch array
+filled from the back, same wrap-around of `-i` at MinInt64, same panic when the padding runs off the array; neither
+loop runs out of the fuel the translator was given (20 and 130). -/
+theorem xatoi_eq_model (buf : Bytes) (i : Int) (pad : Nat) :
+    obsA (XAtoi.run { p0 := buf, p1 := i, p2 := (pad : Int) }) = obsM ((atoi i pad).map (chars buf ++ ·)) := by
+  have hwr : ∀ x : Int, wrap64 x = wrapI 64 x := by intro x; simp [wrap64, wrapI]
+  unfold XAtoi.run Xlate.run XAtoi.body atoi
+  simp only [seq, assign, ifS, ltI_eq, loop, hwr]
+  by_cases hneg : i < 0
+  · simp only [hneg, decide_true, if_true]
+
+    have hr := rel_init buf (wrapI 64 (-i)) (pad : Int) true
+    have L0 : AT.LoopOut { p0 := buf, p1 := wrapI 64 (-i), p2 := (pad : Int), l0 := true, l1 := List.replicate 128 0, l2 := 128, l3 := 127 } (loopN XAtoi.loop0Cond XAtoi.loop0Body 20 { p0 := buf, p1 := wrapI 64 (-i), p2 := (pad : Int), l0 := true, l1 := List.replicate 128 0, l2 := 128, l3 := 127 })
+        (if wrapI 64 (-i) < 0 then Outcome.ok [] else digitsLoop 128 20 (wrapI 64 (-i)).toNat []) := by
+      by_cases ha : wrapI 64 (-i) < 0
+      · simp only [ha, if_true]
+        unfold loopN
+        have : ¬ (0 ≤ wrapI 64 (-i)) := by omega
+        simp only [XAtoi.loop0Cond, geI_eq, this, decide_false, AT.LoopOut]
+        exact ⟨hr, rfl, rfl, rfl⟩
+      · simp only [ha, if_false]
+        exact AT.loop0_spec 20 _ [] hr (by simpa using ha)
+    generalize loopN XAtoi.loop0Cond XAtoi.loop0Body 20 _ = fl0 at L0 ⊢
+    generalize (if wrapI 64 (-i) < 0 then Outcome.ok [] else digitsLoop 128 20 (wrapI 64 (-i)).toNat []) = m0 at L0 ⊢
+    cases fl0 <;> cases m0 <;> simp only [AT.LoopOut] at L0 <;> try contradiction
+    · rename_i s1 ds
+      obtain ⟨r1, f1⟩ := L0
+      have L1 := AT.loop1_spec 130 s1 ds pad r1 (by rw [f1.2.2]) (by omega)
+      simp only [Outcome.bind]
+      generalize loopN XAtoi.loop1Cond XAtoi.loop1Body 130 s1 = fl1 at L1 ⊢
+      generalize padLoop 128 (pad - ds.length) ds = m1 at L1 ⊢
+      cases fl1 <;> cases m1 <;> simp only [AT.LoopOut] at L1 <;> try contradiction
+      · rename_i s2 padded
+        obtain ⟨r2, f2⟩ := L1
+        have hl0 : s2.l0 = true := by rw [f2.2.1, f1.2.1]
+        have hp0 : s2.p0 = buf := by rw [f2.1, f1.1]
+        simp only [hl0]
+        by_cases hfull : padded.length = 128
+        · obtain ⟨w, hw⟩ := AT.push_full s2 padded 45 r2 hfull
+          simp only [hw, pushFront, hfull, obsA, obsM, Outcome.map]
+          simp
+        · have hlt : padded.length < 128 := by have := r2.2.1; omega
+          obtain ⟨hu, hw, hd⟩ := AT.push_step s2 padded 45 r2 hlt
+          have h45 : Char.ofNat (45 : UInt8).toNat = '-' := rfl
+          rw [h45] at hd
+          have r3 : AT.Rel ({ s2 with l1 := List.set s2.l1 (127 - padded.length) 45, l3 := wrapI 64 (s2.l3 - 1) } : XAtoi.St) ('-' :: padded) := by
+            obtain ⟨h1, h2, h3, h4, h5⟩ := r2
+            refine ⟨by simp [h1], by simp; omega, ?_, hd, h5⟩
+            simp only [hw, List.length_cons]
+          have ts := AT.tail_slice _ _ r3
+          simp only at ts
+          simp only [hu, ts, V.bind_ok, V.pure_eq, pushFront, hlt, if_true, obsA, obsM, Outcome.map, hp0]
+          have := r3.2.2.2.1
+          simpa [chars] using this
+      · simp [obsA, obsM, Outcome.map]
+    · simp [obsA, obsM, Outcome.map, Outcome.bind]
+  · simp only [hneg, decide_false, Bool.false_eq_true, if_false, skip]
+
+    have hr := rel_init buf (i) (pad : Int) false
+    have L0 : AT.LoopOut { p0 := buf, p1 := i, p2 := (pad : Int), l0 := false, l1 := List.replicate 128 0, l2 := 128, l3 := 127 } (loopN XAtoi.loop0Cond XAtoi.loop0Body 20 { p0 := buf, p1 := i, p2 := (pad : Int), l0 := false, l1 := List.replicate 128 0, l2 := 128, l3 := 127 })
+        (digitsLoop 128 20 i.toNat []) := by
+      exact AT.loop0_spec 20 _ [] hr (by simpa using hneg)
+    generalize loopN XAtoi.loop0Cond XAtoi.loop0Body 20 _ = fl0 at L0 ⊢
+    generalize (digitsLoop 128 20 i.toNat []) = m0 at L0 ⊢
+    cases fl0 <;> cases m0 <;> simp only [AT.LoopOut] at L0 <;> try contradiction
+    · rename_i s1 ds
+      obtain ⟨r1, f1⟩ := L0
+      have L1 := AT.loop1_spec 130 s1 ds pad r1 (by rw [f1.2.2]) (by omega)
+      simp only [Outcome.bind]
+      generalize loopN XAtoi.loop1Cond XAtoi.loop1Body 130 s1 = fl1 at L1 ⊢
+      generalize padLoop 128 (pad - ds.length) ds = m1 at L1 ⊢
+      cases fl1 <;> cases m1 <;> simp only [AT.LoopOut] at L1 <;> try contradiction
+      · rename_i s2 padded
+        obtain ⟨r2, f2⟩ := L1
+        have hl0 : s2.l0 = false := by rw [f2.2.1, f1.2.1]
+        have hp0 : s2.p0 = buf := by rw [f2.1, f1.1]
+        simp only [hl0]
+        have ts := AT.tail_slice _ _ r2
+        simp only [ts, V.bind_ok, V.pure_eq, obsA, obsM, Outcome.map, hp0]
+        have := r2.2.2.2.1
+        simp [chars] at this ⊢
+        exact this
+      · simp [obsA, obsM, Outcome.map]
+    · simp [obsA, obsM, Outcome.map, Outcome.bind]
+
+/-- `atoi_eq_decimal` transferred: for every int64 but MinInt64 and every pad that fits the scratch array, the
+translated `atoi` appends the sign and the zero-padded decimal digits (`Nat.toDigits 10`) to the buffer. -/
+theorem xatoi_eq_decimal (buf : Bytes) (i : Int) (pad : Nat) (hlo : -2^63 < i) (hhi : i < 2^63) (hpad : pad ≤ 127) :
+    obsA (XAtoi.run { p0 := buf, p1 := i, p2 := (pad : Int) }) = .ok (chars buf ++ Spec.decimal i pad) := by
+  rw [xatoi_eq_model, Props.C20.atoi_eq_decimal i pad hlo hhi hpad]; rfl
+
+/-- `atoi_total` transferred: no int64 (MinInt64 included) and no pad ≤ 127 makes the translated `atoi` panic —
+no store leaves the 128-byte array and both loops end within their fuel. -/
+theorem xatoi_total (buf : Bytes) (i : Int) (pad : Nat) (hlo : -2^63 ≤ i) (hhi : i < 2^63) (hpad : pad ≤ 127) :
+    ∃ r, obsA (XAtoi.run { p0 := buf, p1 := i, p2 := (pad : Int) }) = .ok r := by
+  rw [xatoi_eq_model]
+  have := Props.C20.atoi_total i pad hlo hhi hpad
+  cases hm : atoi i pad with
+  | ok r => exact ⟨_, rfl⟩
+  | panic w => simp [hm, Outcome.isPanic] at this
+
+example : obsA (XAtoi.run { p0 := [65], p1 := -42, p2 := 4 }) = .ok "A-0042".toList := by decide +kernel
+
+
 end Fabio.Props.C20Xlate
